@@ -587,9 +587,10 @@ def setUserName (env : Env) (c : Call) : M VMOutput := do
 /-- the hash comparison of `addNFTToDestination` (dereferences the transferred token's metadata) -/
 def checkSameHash (cur t : Token) : M Unit :=
   match cur.md with
-  | some cm => do
-    let tm ← deref t.md
-    guardE (cm.hash ≠ tm.hash) WrongNFTOnDestination
+  | some cm =>
+    match t.md with
+    | some tm => guardE (cm.hash ≠ tm.hash) WrongNFTOnDestination
+    | none => fail .WrongNFTOnDestination
   | none => pure ()
 
 /-- `addNFTToDestination` (identical in esdtNFTTransfer.go and, after the repair, in
